@@ -15,7 +15,8 @@ Definition slack_ms := 3000.
    c_calls: (call kind, returned before Stop began, result class). *)
 Record case := mkCase {
   c_phase : Z;       (* 0 idle, 1 mid-sync, 2 mid-reorganisation, 3 no peer connected, 4 never started,
-                        5 component scenario: block manager stopped in the middle of a rollback *)
+                        5 component scenario: block manager stopped in the middle of a rollback,
+                        6 idle and synced, a backlog of filters in the batch writer *)
   c_peers : Z;       (* peers connected when Stop began *)
   c_silent : Z;      (* bit mask: 1 getdata, 2 getcfilters, 4 inv, 8 getcfheaders, 16 getheaders, 32 getcfcheckpt *)
   c_persist : bool;
@@ -96,7 +97,9 @@ Definition sites_of_case (c : case) : list site :=
   (* resident goroutines *)
   [g_bcast_idle; g_work_dispatcher; g_work_worker; g_scan_idle; g_sub_handler;
    g_block_handler; g_cf_cond; g_cf_retry; g_cf_batch; g_svc_peer_handler; g_svc_misc]
-  ++ (if c_persist c then [g_batch_writer] else [])
+  (* PersistToDisk: the batch writer, its queue, and the writer's final write
+     of the batch in hand when b.quit fires (a Stop with a backlog) *)
+  ++ (if c_persist c then [g_batch_writer; g_batch_queue; g_batch_final_write] else [])
   (* a transaction was handed to the broadcaster and a peer is connected:
      the handler or the rebroadcast worker can be inside sendTransaction *)
   ++ (if has_call c 4 && peers then [g_bcast_in_broadcast; g_bcast_rebroadcast] else [])
@@ -105,9 +108,10 @@ Definition sites_of_case (c : case) : list site :=
   ++ (if blocked_call c 2 then [g_scan_in_query] else [])
   (* filter-header sync can be inside a broadcast query: not idle, or a peer
      is silent on filter-header traffic, or the chain needs checkpoints.
+     (Phase 6 is an idle, synced client.)
      The number of peers connected NOW does not matter: queryAllPeers waits
      for s.quit or its timeout even after the peers it asked have gone. *)
-  ++ (if negb (c_phase c =? 0) || bit (c_silent c) 8 || bit (c_silent c) 16
+  ++ (if negb ((c_phase c =? 0) || (c_phase c =? 6)) || bit (c_silent c) 8 || bit (c_silent c) 16
          || bit (c_silent c) 32 || c_long c
       then [g_cf_query_all; g_cf_getblock] else []).
 
